@@ -200,10 +200,33 @@ func (f *Fixture) NewNode(i int, variant uint64) *Node {
 	be := cs.NewBlockExecutor(db, log.NewNopLogger(), cs.MockEvidencePool{})
 	var pv types.PrivValidator
 	if i >= 0 {
-		pv = types.VerifNewMockPV(f.Keys[i])
+		pv = newCachedPV(f.Keys[i])
 	}
 	vn := cs.VerifNewNode(Config(), st, be, app, cs.MockMempool{}, cs.MockEvidencePool{}, pv)
 	return &Node{VerifNode: vn, Index: i, App: app, DB: db}
+}
+
+// cachedPV is the repository's mock signer (types.MockPV, what its own consensus tests use) with the address and public
+// key remembered: MockPV derives them from the private key on EVERY call (a scalar multiplication), and the state
+// machine asks for its address at every step, which cost about 15% of the CPU time of the consensus searches. The
+// signer is harness equipment, not code under test (the production signer FilePV is C04's subject).
+type cachedPV struct {
+	*types.MockPV
+	addr crypto.Address
+	pub  crypto.PubKey
+}
+
+func newCachedPV(k crypto.PrivKey) *cachedPV {
+	pv := &cachedPV{MockPV: types.VerifNewMockPV(k)}
+	pv.addr, pv.pub = pv.MockPV.GetAddress(), pv.MockPV.GetPubKey()
+	return pv
+}
+
+func (pv *cachedPV) GetAddress() crypto.Address { return pv.addr }
+func (pv *cachedPV) GetPubKey() crypto.PubKey   { return pv.pub }
+func (pv *cachedPV) UpdatePrikey(k crypto.PrivKey) {
+	pv.MockPV.UpdatePrikey(k)
+	pv.addr, pv.pub = pv.MockPV.GetAddress(), pv.MockPV.GetPubKey()
 }
 
 // ---------------------------------------------------------------------------------------------
